@@ -36,7 +36,7 @@ func init() {
 func (w *QueryWorld) Bucket() *rosmar.Bucket { return w.h }
 
 func (w *QueryWorld) Alphabet(tier int) []string {
-	ops := []string{"A.Set/k/1", "A.Set/k/2", "A.Set/j/1", "B.Set/k/3", "B.Set/j/raw", "A.Delete/k", "A.Delete/j", "B.Delete/k", "A.SetXattrs/k", "B.SetXattrs/j",
+	ops := []string{"A.Set/k/1", "A.Set/k/2", "A.SetNoV/j", "A.Set/j/1", "B.Set/k/3", "B.Set/j/raw", "A.Delete/k", "A.Delete/j", "B.Delete/k", "A.SetXattrs/k", "B.SetXattrs/j",
 		"A.WriteTombstone/k", "A.Add/k", "A.SetRawNil/j", "A.AddRawNil/k", "A.UpdateDelete/k", "A.DeleteWithXattrs/k", "A.Resurrect/k", "Purge", "A.SetWithMeta/j", "A.DeleteWithMeta/j", "A.SetEmpty/j"}
 	return ops
 }
@@ -72,6 +72,8 @@ func (w *QueryWorld) Apply(op string) (string, []Violation) {
 		} else {
 			err = cl.Set(parts[1], 0, nil, []byte(fmt.Sprintf(`{"v":%s,"t":"%s"}`, parts[2], parts[1])))
 		}
+	case "SetNoV":
+		err = cl.Set(parts[1], 0, nil, []byte(`{"t":"nov"}`))
 	case "SetEmpty":
 		err = cl.SetRaw(parts[1], 0, nil, []byte{})
 	case "Delete":
@@ -195,6 +197,7 @@ func (w *QueryWorld) checkQueries(c *checker, cl *rosmar.Collection, collName st
 	if got := queryString(cl, `SELECT id FROM $_keyspace WHERE xattrs->>'$._s.n' >= 5 ORDER BY id`, nil); got != strings.Join(want, ";") {
 		c.add("C19", "xattr-filter", "%s: filter on xattrs._s.n>=5 returned [%s], want [%s]", collName, got, strings.Join(want, ";"))
 	}
+	w.checkDecoded(c, cl, collName, docs)
 	// Q5: bodies of JSON documents
 	want = nil
 	for _, d := range docs {
@@ -204,6 +207,49 @@ func (w *QueryWorld) checkQueries(c *checker, cl *rosmar.Collection, collName st
 	}
 	if got := queryString(cl, `SELECT id, body->>'t' AS t FROM $_keyspace WHERE json_valid(body) AND body->>'t' NOT NULL ORDER BY id`, nil); got != strings.Join(want, ";") {
 		c.add("C19", "body-select", "%s: SELECT id, body.t returned [%s], want [%s]", collName, got, strings.Join(want, ";"))
+	}
+}
+
+// checkDecoded runs a query whose first column may be NULL and reads it through Next() (JSON decoding
+// of every row): every JSON document must come back exactly once.
+func (w *QueryWorld) checkDecoded(c *checker, cl *rosmar.Collection, collName string, docs []kvDoc) {
+	it, err := cl.Query(sgbucket.SQLiteLanguage, `SELECT body->'v' AS v, json_quote(id) AS id FROM $_keyspace WHERE json_valid(body) ORDER BY id`, nil, sgbucket.RequestPlus, false)
+	if err != nil {
+		c.add("C19", "decoded", "%s: query failed: %v", collName, err)
+		return
+	}
+	var got []string
+	for {
+		var row map[string]any
+		if !it.Next(ctx, &row) {
+			break
+		}
+		v, _ := json.Marshal(row["v"])
+		_, hasV := row["v"]
+		got = append(got, fmt.Sprintf("%v:%v:%s", row["id"], hasV, v))
+	}
+	cerr := it.Close()
+	var want []string
+	for _, d := range docs {
+		if !d.isJSON {
+			continue
+		}
+		var m map[string]json.RawMessage
+		if json.Unmarshal(d.body, &m) != nil {
+			want = append(want, fmt.Sprintf("%s:false:null", d.id)) // JSON but not an object: v is NULL
+			continue
+		}
+		if v, ok := m["v"]; ok {
+			var x any
+			_ = json.Unmarshal(v, &x)
+			vv, _ := json.Marshal(x)
+			want = append(want, fmt.Sprintf("%s:true:%s", d.id, vv))
+		} else {
+			want = append(want, fmt.Sprintf("%s:false:null", d.id))
+		}
+	}
+	if cerr != nil || strings.Join(got, ";") != strings.Join(want, ";") {
+		c.add("C19", "decoded", "%s: rows decoded through Next(): [%s] (close: %v), the key-value read-back gives [%s]", collName, strings.Join(got, ";"), cerr, strings.Join(want, ";"))
 	}
 }
 
